@@ -35,13 +35,13 @@ def mode_of(c):
 
 def step_script(st):
     return (tuple(st["muts"]), st["suite"], st["ccid"], st["scid"], st["client_auth"], st["fault"], st["bh"],
-            tuple(st["mask"]), st["no_cstore"], st["no_sstore"], st["name"], st["addr"])
+            tuple(st["mask"]), st["no_cstore"], st["no_sstore"], st["name"], st["addr"], st.get("post", ""))
 
 
 def nontrivial_step(st):
     return bool(st["muts"] or st["fault"] or st["bh"] or any(a != "pass" for a in st["mask"]) or st["suite"]
                 or st["ccid"] >= 0 or st["scid"] >= 0 or st["client_auth"] or st["no_cstore"] or st["no_sstore"]
-                or st["name"] or st["addr"])
+                or st["name"] or st["addr"] or st.get("post"))
 
 
 # ------------------------------------------------------------------ monitors (the property's statements)
@@ -145,28 +145,49 @@ def monitors(h):
             bad.append(("cid-not-of-this-connection", i, "client connection ids are not those generated in this connection"))
         if sok and (c["s_rcid"], c["s_lcid"]) != want:
             bad.append(("cid-not-of-this-connection", i, "server connection ids are not those generated in this connection"))
-        # M6 fatal_alert_evicts
+        # M6 fatal_alert_evicts: endpoint X put a fatal alert ON THE WIRE (plaintext during the handshake, or a
+        # protected record of the established connection opened in-package with the peer's keys) while its
+        # state.SessionID was not empty => X's store no longer holds that session => the next ClientHello of X
+        # does not offer it / the server does not resume it.
         nxt = conns[i + 1] if i + 1 < len(conns) else None
         for a in c["alerts"]:
-            if a["level"] != 2:
+            if a["level"] == -1:
+                bad.append(("undecodable-protected-alert", i, "a protected alert of side %s could not be opened with the "
+                            "peer's keys" % a["side"]))
+        for side in ("c", "s"):
+            fatal = [a for a in c["alerts"] if a["side"] == side and a["level"] == 2]
+            if not fatal:
                 continue
-            sess_on = c["sh_sid"][-1] if c["sh_sid"] else (off if a["side"] == "c" else "")
+            a = fatal[0]
+            sess_on = c[side + "_isid"]
+            where = "after establishment (record path)" if a.get("post") else "during the handshake"
             if not sess_on:
-                if a["side"] == "c" and off and post_c.get(c["key"], {}).get("id") == off:
+                if side == "c" and off and post_c.get(c["key"], {}).get("id") == off:
                     note("client sent a fatal alert after the server declined its offer with an EMPTY session id: "
                          "the offered entry stays")
                 continue
-            if a["side"] == "c":
+            if side == "c":
                 e = post_c.get(c["key"])
-                if e is not None and e["id"] == sess_on:
-                    bad.append(("alerted-session-still-stored", i, "client sent fatal alert %d on session but still holds it"
-                                % a["desc"]))
-                if nxt and not nxt["step"]["muts"] and nxt["key"] == c["key"] and sess_on in nxt["ch_sid"]:
-                    bad.append(("alerted-session-offered-again", i, "client offers the session it sent a fatal alert on"))
+                if e is not None and not e["nil"] and e["id"] == sess_on:
+                    bad.append(("alerted-session-still-stored", i, "client sent fatal alert %d %s on a session that its "
+                                "store still holds" % (a["desc"], where)))
+                if nxt and not nxt["step"]["muts"] and nxt["key"] == c["key"] and not nxt["step"]["no_cstore"] \
+                        and sess_on in nxt["ch_sid"]:
+                    bad.append(("alerted-session-offered-again", i, "client sent fatal alert %d %s on a session and offers "
+                                "it in the next ClientHello" % (a["desc"], where)))
             else:
                 if sess_on in post_s and not post_s[sess_on]["nil"]:
-                    bad.append(("alerted-session-still-stored", i, "server sent fatal alert %d on session but still holds it"
-                                % a["desc"]))
+                    bad.append(("alerted-session-still-stored", i, "server sent fatal alert %d %s on a session that its "
+                                "store still holds" % (a["desc"], where)))
+                if nxt and not nxt["step"]["muts"] and not nxt["step"]["no_sstore"] and sess_on in nxt["ch_sid"] \
+                        and mode_of(nxt) == 1:
+                    bad.append(("alerted-session-resumed", i, "server sent fatal alert %d %s on a session and resumes it "
+                                "in the next connection" % (a["desc"], where)))
+            if a.get("post"):
+                note("record-path fatal alert on an established connection observed on the wire (%s)" % side)
+        if st.get("post") and cok and sok and not any(a.get("post") and a["level"] == 2 and a["side"] == st["post"][0]
+                                                      for a in c["alerts"]):
+            note("forged record on an established connection did not provoke a fatal alert")
         # M7 client_cert_not_stored
         if mode == 0 and any(w.startswith("c:") and "CERT" in w for w in c["wire"]):
             sid = c["sh_sid"][-1] if c["sh_sid"] else ""
@@ -248,10 +269,15 @@ def hist_term(h):
             c_outcome(c["s_out"]), sec(c["s_ms"]), rnd(c["s_rand_r"]), rnd(c["s_rand_l"]), bid(c["s_isid"]),
             c_opt(c["s_lcid"], cid), c_opt(c["s_rcid"], cid))
         off = bid(c["ch_sid"][-1]) if c["ch_sid"] else 0
-        steps.append("mkOStep %s %s %s %s %d %d %s %s %s %s %s %s" % (
+        inj = 0
+        for a in c["alerts"]:
+            if a.get("post") and a["level"] == 2 and c["c_out"] == "ok" and c["s_out"] == "ok":
+                inj = 1 if a["side"] == "c" else 2
+                break
+        steps.append("mkOStep %s %s %s %s %d %d %s %s %s %s %s %s %d" % (
             cbool(bool(st["muts"])), c_store(c["pre_c"], bid, sec), c_store(c["pre_s"], bid, sec), params, mode, off,
             cside, sside, c_ops(c["ops_c"], bid, sec), c_ops(c["ops_s"], bid, sec),
-            c_store(c["post_c"], bid, sec), c_store(c["post_s"], bid, sec)))
+            c_store(c["post_c"], bid, sec), c_store(c["post_s"], bid, sec), inj))
     return clist(steps)
 
 
@@ -269,7 +295,9 @@ def slim(h):
 HOW = ("harness/overlay/root/zz_verif_c14_test.go: one client and one server share two instrumented in-memory session "
        "stores over the connections of `conns` (in order); before a connection the script applies `step.muts` to the "
        "stores, configures `step.fault` (ems/sems: ExtendedMasterSecret Require vs Disable; alpn: disjoint protocols; "
-       "sverify/cverify: VerifyConnection returns an error; wrongpsk: client PSK differs), drops every datagram of "
+       "sverify/cverify: VerifyConnection returns an error; wrongpsk: client PSK differs; `step.post` c_/s_ app0|ct99: "
+       "after establishment ONE forged plaintext record - epoch-0 application_data or content type 99 - is delivered to "
+       "the client/server, whose protected alert is opened with the peer's keys), drops every datagram of "
        "`step.bh` side that carries a ChangeCipherSpec, and applies `step.mask` per emitted datagram index")
 
 
